@@ -7,6 +7,8 @@ import Driver.Codec
 import EvalexprVerif.Spec.RefArith
 import Driver.Gen
 import EvalexprVerif.Spec.RefBuiltin
+import EvalexprVerif.Spec.BigStep
+import EvalexprVerif.Spec.Idents
 
 open Evalexpr Evalexpr.Codec
 
@@ -198,6 +200,29 @@ def handle (sess : Session) (line : String) : Session × String :=
     let (src1, r) := Gen.renderTokens ts r
     let (src2, _) := Gen.renderTokens ts r
     (sess, s!"x{hexOfStr src1} x{hexOfStr src2} {Gen.encTokens ts}")
+  | ["spec.stop", slot, src] =>
+    -- C11: does the mutable run apply an assignment operator before finishing or failing?
+    match sess.get slot.toNat!, buildOperatorTree (hexArg src) with
+    | some c, .ok n =>
+      (sess, match (Spec.evalStop n { ctx := c, log := [] }).1 with
+        | .reachedAssign => "reached"
+        | .finished r => "finished " ++ encRes encValue r)
+    | some _, .error e => (sess, "finished err " ++ encErr e)
+    | none, _ => (sess, "bad-op")
+  | ["gen.c14", seed, depth] =>
+    let (e, r) := Gen.genExpr ⟨seed.toNat!⟩ depth.toNat!
+    let (src, _) := Gen.renderTokens (Spec.render e) r
+    let cls : IdentClass → String := fun c => match c with | .write => "w" | .read => "r" | .function => "f"
+    (sess, s!"x{hexOfStr src} {",".intercalate ((Spec.occ e).map fun (c, x) => cls c ++ ":" ++ hexOfStr x)}")
+  | ["evalrename", slot, suffix, src] =>
+    -- C14: rename the variables of the tree through the mutable iterator, then evaluate
+    match sess.get slot.toNat!, buildOperatorTree (hexArg src) with
+    | some c, .ok n =>
+      let n' := n.renameDesc .variable (· ++ hexArg suffix)
+      let (r, s1) := n'.evalMut { ctx := c, log := [] }
+      (sess.set slot.toNat! s1.ctx, encRes encValue r ++ " ; " ++ encLog s1.log)
+    | some _, .error e => (sess, "err " ++ encErr e ++ " ; ")
+    | none, _ => (sess, "bad-op")
   | ["gen.c07sys", idx, len] =>
     -- the idx-th token sequence of length len over the token pool, two gap assignments
     let n := Gen.tokenPool.size
